@@ -564,6 +564,8 @@ def shared_class_state(ctx, modname: str) -> List[Tuple[str, str, ast.AST, Func,
                     for t in (x.targets if isinstance(x, ast.Assign) else [x.target]):
                         if isinstance(t, ast.Subscript):
                             tgt = t.value
+                        elif isinstance(x, ast.AugAssign) and isinstance(t, ast.Attribute):
+                            tgt = t  # self.xs += [...] extends the class-level list in place, then binds it on the instance
                 if isinstance(tgt, ast.Attribute) and isinstance(tgt.value, ast.Name) and tgt.value.id in ("self", "cls", st.name) and tgt.attr in attrs:
                     out.append((st.name, tgt.attr, attrs[tgt.attr], fn, x))
         # an attribute re-bound per instance in __init__ is not shared
